@@ -52,8 +52,13 @@ def qlit(t):
     f = Fraction(t)          # exact value of the decimal literal
     return f
 
+DEN = [1]
 def coq_q(f):
-    return "(%d # %d)" % (f.numerator, f.denominator)
+    """every entry over the common denominator 10^k (k = most decimals in the table): exact, and sums of products of
+    table entries then share their denominators (cheap exact arithmetic in Coq)"""
+    n = f * DEN[0]
+    assert n.denominator == 1
+    return "(%d # %d)" % (n.numerator, DEN[0])
 
 def parse(repo):
     """-> (nbPts, rules (as Fractions), literals (strings), problems)"""
@@ -112,6 +117,17 @@ def generate(repo, out_dir):
     nb, rules, lits, problems = parse(repo)
     if nb is None or rules is None:
         nb = nb or []; rules = rules or []
+    den = 1
+    for rr in rules:
+        for q in rr:
+            for f in q:
+                d = f.denominator
+                k = 1
+                while k % d != 0: k *= 10
+                    # terminates: the literals are decimal, so d divides a power of ten
+                den = max(den, k)
+    DEN[0] = den
+    if den >= 2 ** 53: problems.append("common denominator %d is not exact in a double" % den)
     L = ["(* GENERATED by translators/t_quad.py from %s -- do not edit." % SRC,
          "   gen_nbPts = nbPts[], gen_rules = rules[][] with every decimal literal as the exact rational it denotes;",
          "   a node is (l0, l1, l2, weight). *)",
